@@ -164,6 +164,7 @@ SHIFT_CONFIGS = [
     ("arr(3),S=(3,)", "IntensitySignal", 0, {1: 3}, ("array", (3,))),
     ("arr(2),rank1-too-many", "Signal", 0, {}, ("array", (2,))),
     ("qarr(2),S=(2,)", "RadioSignal", 0, {1: 2}, ("qarray", (2,))),
+    ("quantity-us,rate-kHz,S=(2,)", "RadioSignal", 0, {1: 2}, ("quantity-us",)),
 ]
 
 
@@ -177,8 +178,11 @@ def inst_time_shift():
                     d = DEFAULT_DTYPE[cls]
                     if dt == "single":
                         d = {"float64": "float32", "complex128": "complex64"}[d]
-                    z = mk_signal(interp, ctx, "z", cls, extra_rank=extra, dims=dims, dtype=d, backend=be, min_len=1, nm=nm)
-                    if sb[0] == "scalar":
+                    z = mk_signal(interp, ctx, "z", cls, extra_rank=extra, dims=dims, dtype=d, backend=be, min_len=1, nm=nm,
+                                  sr_unit="kHz" if sb[0] == "quantity-us" else "Hz")
+                    if sb[0] == "quantity-us":
+                        sh = Qty(nm.real("sh_t", Fraction(7, 2000)), TIME_DIM, interp.stubs.units["us"])
+                    elif sb[0] == "scalar":
                         sh = nm.real("sh")
                     elif sb[0] == "quantity":
                         sh = Qty(nm.real("sh_t", Fraction(7, 2000)), TIME_DIM, interp.stubs.units["s"])
